@@ -34,12 +34,13 @@ MANIFEST = dict(
          "prefix rejects the whole input, leaves the pre-input checker state and never enters the run stage; "
          "C02_accept_sound / C02_accept_sound_annotated — for the arithmetic core of the elaborator (literals incl. the "
          "polymorphic 0, identifiers, units, unary and binary operators with constant exponents, comparisons, if, calls "
-         "of functions with monomorphic signatures; no list literals) over monomorphic environments: acceptance plus a "
+         "of monomorphic and of generic (quantified, Dim-bounded) functions and values with instantiation by fresh "
+         "variables; no list literals) over well-formed environments: acceptance plus a "
          "solver solution imply, in every well-sorted instance of the solution, the declarative dimensional analysis "
          "has_ty of Dim/Sem.v at exactly the meaning of the inferred (and of the reported) type, and for annotated "
          "definitions that the annotation denotes the derived dimension; C02_canonical_form — every factor list produced by "
-         "try_canonicalize is strictly sorted with non-zero exponents and canonicalisation is idempotent. NOT proved: accept-soundness for polymorphic "
-         "environment entries, function definitions/generalisation and lists; C02_reject_complete; solver "
+         "try_canonicalize is strictly sorted with non-zero exponents and canonicalisation is idempotent. NOT proved: accept-soundness for function "
+         "definitions/generalisation and list literals; C02_reject_complete; solver "
          "termination/mgu; idempotence of the returned substitution. Those clauses rest on the ties: accept/reject, the "
          "TypeCheckError variant and the raw type scheme of every statement are compared between model and "
          "implementation on generated multi-statement programs, mis-dimensioned variants and two-input sessions; an "
